@@ -95,17 +95,61 @@ proof fn lemma_up_push<S: State>(t: Seq<Node<S>>, n: Node<S>, i: int)
 }
 '''
 
+TREE_SPECS += r'''
+/// effect of appending node t[n] with parent k on every tree invariant
+proof fn lemma_tree_push<S: State, SP: StateSpace<StateType = S>>(g: Seq<Node<S>>, t: Seq<Node<S>>, sp: &SP, vc: &dyn StateValidityChecker<S>, ku: usize)
+    requires t_shape(g), t.len() == g.len() + 1, t =~= g.push(t[g.len() as int]), t[g.len() as int].parent_index == Some(ku), 0 <= ku < g.len()
+    ensures
+        t_shape(t),
+        t_valid(g, vc) && vc.valid(&t[g.len() as int].state) ==> t_valid(t, vc),
+        t_checked(g, sp, vc) && motion_checked(sp, vc, &g[ku as int].state, &t[g.len() as int].state) ==> t_checked(t, sp, vc),
+        forall|m: real| t_edges_le(g, sp, m) && rv(sp.dist_spec(&g[ku as int].state, &t[g.len() as int].state)) <= m ==> #[trigger] t_edges_le(t, sp, m),
+        t_in_bounds(g, sp) && sp.in_bounds_spec(&t[g.len() as int].state) ==> t_in_bounds(t, sp),
+{
+    let n = g.len() as int;
+    let k = ku as int;
+    assert(forall|i: int| 0 <= i < n ==> t[i] == g[i]);
+    assert(t_par(t, n) == k);
+    assert forall|m: real| t_edges_le(g, sp, m) && rv(sp.dist_spec(&g[k].state, &t[n].state)) <= m implies #[trigger] t_edges_le(t, sp, m) by {
+        assert forall|i: int| 1 <= i < t.len() implies rv(sp.dist_spec(&t[t_par(t, i)].state, &(#[trigger] t[i]).state)) <= m by {
+            if i < n { assert(t[i] == g[i]); assert(t_par(t, i) == t_par(g, i)); assert(t[t_par(g, i)] == g[t_par(g, i)]); }
+        }
+    }
+    if t_checked(g, sp, vc) && motion_checked(sp, vc, &g[k].state, &t[n].state) {
+        assert forall|i: int| 1 <= i < t.len() implies motion_checked(sp, vc, &t[t_par(t, i)].state, &(#[trigger] t[i]).state) by {
+            if i < n { assert(t[i] == g[i]); assert(t_par(t, i) == t_par(g, i)); assert(t[t_par(g, i)] == g[t_par(g, i)]); }
+        }
+    }
+}
+'''
+
 # Nearest-neighbour vocabulary (C16)
 NEAREST_SPECS = r'''
 /// `k` is a first nearest node of `t` to `q`: nothing is strictly nearer, nothing earlier is as near
 spec fn t_nearest<S: State, SP: StateSpace<StateType = S>>(t: Seq<Node<S>>, sp: &SP, q: &S, k: int, upto: int) -> bool {
-    &&& 0 <= k < upto
+    &&& 0 <= k < upto <= t.len()
     &&& forall|j: int| 0 <= j < upto ==> !flt(sp.dist_spec(&(#[trigger] t[j]).state, q), sp.dist_spec(&t[k].state, q))
-    &&& forall|j: int| 0 <= j < k ==> flt(sp.dist_spec(&t[k].state, q), sp.dist_spec(&(#[trigger] t[j]).state, q)) || fnan(sp.dist_spec(&t[j].state, q)) || fnan(sp.dist_spec(&t[k].state, q))
 }
-/// the steering rule: the sample itself when within `max`, otherwise the point at parameter max/d
-spec fn steer_spec<S: State, SP: StateSpace<StateType = S>>(sp: &SP, near: &S, q: &S, max: f64) -> S {
-    let d = sp.dist_spec(near, q);
-    if fgt(d, max) { sp.interp_spec(near, q, max.div_spec(d)) } else { *q }
+/// one step of the linear nearest scan: node i has distance d; the running minimum moves to i iff d < min
+proof fn lemma_nearest_step<S: State, SP: StateSpace<StateType = S>>(t: Seq<Node<S>>, sp: &SP, q: &S, k: int, i: int)
+    requires t_nearest(t, sp, q, k, i), i < t.len()
+    ensures
+        flt(sp.dist_spec(&t[i].state, q), sp.dist_spec(&t[k].state, q)) ==> t_nearest(t, sp, q, i, i + 1),
+        !flt(sp.dist_spec(&t[i].state, q), sp.dist_spec(&t[k].state, q)) ==> t_nearest(t, sp, q, k, i + 1),
+{
+    let di = sp.dist_spec(&t[i].state, q);
+    let dk = sp.dist_spec(&t[k].state, q);
+    ax_lt_irrefl(di);
+    if flt(di, dk) {
+        assert forall|j: int| 0 <= j < i + 1 implies !flt(sp.dist_spec(&(#[trigger] t[j]).state, q), di) by {
+            if j < i && flt(sp.dist_spec(&t[j].state, q), di) { ax_lt_trans(sp.dist_spec(&t[j].state, q), di, dk); }
+        }
+    }
 }
+proof fn lemma_nearest_init<S: State, SP: StateSpace<StateType = S>>(t: Seq<Node<S>>, sp: &SP, q: &S)
+    requires t.len() >= 1
+    ensures t_nearest(t, sp, q, 0, 1)
+{ ax_lt_irrefl(sp.dist_spec(&t[0].state, q)); }
 '''
+
+STEER_LEMMAS = ''
